@@ -1,4 +1,4 @@
-/- The state the models assume: transcribed census of package-level variables and of the members of the stateful types (compared with the regenerated census by `decide`, Props/StateCensus.lean).  A new entry means new state: extend the models (or argue here why it carries nothing between calls) before extending this list. -/
+/- The state and the control skeleton the models assume: transcribed census of package-level variables, of the members of the stateful types, of the places where the process environment or the FRB compatibility mode is consulted, and of the calls, conditions and returns of every function of the server packages (compared with the regenerated census, Props/StateCensus.lean).  A new entry means new state, a new mode-dependent path or a new branch of a handler: extend the models (or argue here why it changes nothing) before extending this list. -/
 namespace Icl.Spec.State
 
 /-- every package-level variable: (package directory:name, declared type or kind of initialiser) -/
@@ -65,6 +65,57 @@ def fields : List (String × String) := [
   ("internal/responder:Responder", "logger log.Logger; w http.ResponseWriter; r *http.Request; (embedded) optionalHeaders"),
   ("internal/responder:optionalHeaders", "location string"),
   ("internal/storage:memoryICLFileRepository", "mu sync.Mutex; files map[string]*imagecashletter.File")
+]
+
+/-- the control skeleton of every function of the server packages: its calls (logging and formatting aside) in source
+order, its conditions, its returns -/
+def skeletons : List (String × List String) := [
+  ("internal/files/v2:Controller.AddRoutes", ["call router.PathPrefix", "call router.PathPrefix(\"/v2\").Subrouter", "call v2Routes.\n\tPath", "call v2Routes.\n\tPath(\"/files\").\n\tMethods", "call v2Routes.\n\tPath(\"/files\").\n\tMethods(http.MethodPost).\n\tHandlerFunc"]),
+  ("internal/files/v2:Controller.createFile", ["call metrics.WrapResponseWriter", "call responder.NewResponder", "call r.Header.Get", "switch  {", "case strings.Contains(contentType, \"application/json\"):", "call c.fileFromJSON", "case strings.Contains(contentType, \"multipart/form-data\"):", "call c.fileFromForm", "case :", "}", "if err != nil {", "call c.logger.Error", "call c.logger.Error().LogErrorf", "call respond.Error", "return ", "}", "call c.repo.SaveFile", "if err != nil {", "call c.logger.Error", "call c.logger.Error().LogErrorf", "call respond.Error", "return ", "}", "call respond.WithLocation", "call expectingFile", "if expectingFile(r) {", "call respond.File", "return ", "}", "call respond.JSON"]),
+  ("internal/files/v2:Controller.fileFromForm", ["call int64", "call r.ParseMultipartForm", "if err != nil {", "return nil, <call>", "}", "call r.FormFile", "if err != nil {", "return nil, <call>", "}", "call imagecashletter.ReadVariableLineLengthOption", "call imagecashletter.BufferSizeOption", "call hdr.Header.Get", "if contentType != \"text/plain\" {", "call imagecashletter.ReadEbcdicEncodingOption", "call append", "}", "call imagecashletter.NewReader", "call imagecashletter.NewReader(formFile, opts...).Read", "if err != nil {", "return nil, <call>", "}", "call uuid.NewString", "return &file, nil"]),
+  ("internal/files/v2:Controller.fileFromJSON", ["call io.ReadAll", "if err != nil {", "return nil, <call>", "}", "call imagecashletter.FileFromJSON", "if err != nil {", "return nil, <call>", "}", "call uuid.NewString", "return file, nil"]),
+  ("internal/files/v2:NewController", ["return Controller{\n\tlogger:\tlogger,\n\trepo:\tfileRepo,\n}"]),
+  ("internal/files/v2:expectingFile", ["call r.Header.Get", "return mimeType == \"application/octet-stream\" || mimeType == \"text/plain\""]),
+  ("internal/files:AppendRoutes", ["call getFiles", "call r.Methods", "call r.Methods(\"GET\").Path", "call r.Methods(\"GET\").Path(\"/files\").HandlerFunc", "call createFile", "call r.Methods", "call r.Methods(\"POST\").Path", "call r.Methods(\"POST\").Path(\"/files/create\").HandlerFunc", "call getFile", "call r.Methods", "call r.Methods(\"GET\").Path", "call r.Methods(\"GET\").Path(\"/files/{fileId}\").HandlerFunc", "call updateFileHeader", "call r.Methods", "call r.Methods(\"POST\").Path", "call r.Methods(\"POST\").Path(\"/files/{fileId}\").HandlerFunc", "call deleteFile", "call r.Methods", "call r.Methods(\"DELETE\").Path", "call r.Methods(\"DELETE\").Path(\"/files/{fileId}\").HandlerFunc", "call getFileContents", "call r.Methods", "call r.Methods(\"GET\").Path", "call r.Methods(\"GET\").Path(\"/files/{fileId}/contents\").HandlerFunc", "call validateFile", "call r.Methods", "call r.Methods(\"GET\").Path", "call r.Methods(\"GET\").Path(\"/files/{fileId}/validate\").HandlerFunc", "call addCashLetterToFile", "call r.Methods", "call r.Methods(\"POST\").Path", "call r.Methods(\"POST\").Path(\"/files/{fileId}/cashLetters\").HandlerFunc", "call removeCashLetterFromFile", "call r.Methods", "call r.Methods(\"DELETE\").Path", "call r.Methods(\"DELETE\").Path(\"/files/{fileId}/cashLetters/{cashLetterId}\").HandlerFunc"]),
+  ("internal/files:addCashLetterToFile", ["func{", "call moovhttp.GetRequestID", "if requestID != \"\" {", "}", "call metrics.WrapResponseWriter", "call json.NewDecoder", "call json.NewDecoder(r.Body).Decode", "if err != nil {", "call moovhttp.Problem", "return ", "}", "call getFileId", "if fileId == \"\" {", "return ", "}", "call updateMu.Lock", "defer updateMu.Unlock", "call repo.GetFile", "if err != nil {", "call moovhttp.Problem", "return ", "}", "if file == nil {", "call http.NotFound", "return ", "}", "call append", "call repo.SaveFile", "if err != nil {", "call moovhttp.Problem", "return ", "}", "call w.Header", "call w.Header().Set(\"Content-Type\", \"application/json; charset=utf-8\")", "call w.WriteHeader(http.StatusOK)", "call json.NewEncoder", "call json.NewEncoder(w).Encode", "}", "return <func>"]),
+  ("internal/files:createFile", ["func{", "call moovhttp.GetRequestID", "if requestID != \"\" {", "}", "call metrics.WrapResponseWriter", "call imagecashletter.NewFile", "if req.ID == \"\" {", "call base.ID", "}", "call io.ReadAll", "if err != nil {", "call moovhttp.Problem", "return ", "}", "call r.Header.Get", "if strings.Contains(h, \"application/json\") {", "call imagecashletter.FileFromJSON", "if err != nil {", "call moovhttp.Problem", "return ", "} else {", "}", "} else {", "call bytes.NewReader", "call imagecashletter.ReadVariableLineLengthOption", "call imagecashletter.ReadEbcdicEncodingOption", "call imagecashletter.BufferSizeOption", "call imagecashletter.NewReader", "call imagecashletter.NewReader(reader, opts...).Read", "if err != nil {", "call moovhttp.Problem", "return ", "} else {", "}", "}", "if req.ID == \"\" {", "call base.ID", "}", "call updateMu.Lock", "call repo.SaveFile", "call updateMu.Unlock", "if err != nil {", "call moovhttp.Problem", "return ", "}", "call w.Header", "call w.Header().Set(\"Content-Type\", \"application/json; charset=utf-8\")", "call w.WriteHeader(http.StatusCreated)", "call json.NewEncoder", "call json.NewEncoder(w).Encode", "}", "return <func>"]),
+  ("internal/files:deleteFile", ["func{", "call moovhttp.GetRequestID", "if requestID != \"\" {", "}", "call metrics.WrapResponseWriter", "call getFileId", "if fileId == \"\" {", "return ", "}", "call updateMu.Lock", "defer updateMu.Unlock", "call repo.GetFile", "if err != nil {", "call moovhttp.Problem", "return ", "}", "if file == nil {", "call http.NotFound", "return ", "}", "call repo.DeleteFile", "if err != nil {", "call moovhttp.Problem", "return ", "}", "call w.Header", "call w.Header().Set(\"Content-Type\", \"application/json; charset=utf-8\")", "call w.WriteHeader(http.StatusOK)", "call json.NewEncoder", "call json.NewEncoder(w).Encode", "}", "return <func>"]),
+  ("internal/files:determineBufferSize", ["call os.LookupEnv", "if exists {", "call int", "return <call>", "}", "return nominal"]),
+  ("internal/files:getCashLetterId", ["call mux.Vars", "if !ok || v == \"\" {", "call moovhttp.Problem", "return \"\"", "}", "return v"]),
+  ("internal/files:getFile", ["func{", "call moovhttp.GetRequestID", "if requestID != \"\" {", "}", "call metrics.WrapResponseWriter", "call getFileId", "if fileId == \"\" {", "return ", "}", "call repo.GetFile", "if err != nil {", "call moovhttp.Problem", "return ", "}", "if file == nil {", "call http.NotFound", "return ", "}", "call w.Header", "call w.Header().Set(\"Content-Type\", \"application/json; charset=utf-8\")", "call w.WriteHeader(http.StatusOK)", "call json.NewEncoder", "call json.NewEncoder(w).Encode", "}", "return <func>"]),
+  ("internal/files:getFileContents", ["func{", "call moovhttp.GetRequestID", "if requestID != \"\" {", "}", "call metrics.WrapResponseWriter", "call getFileId", "if fileId == \"\" {", "return ", "}", "call repo.GetFile", "if err != nil {", "call moovhttp.Problem", "return ", "}", "if file == nil {", "call http.NotFound", "return ", "}", "call imagecashletter.WriteVariableLineLengthOption", "call imagecashletter.WriteEbcdicEncodingOption", "call imagecashletter.NewWriter", "call imagecashletter.NewWriter(&contents, opts...).Write", "if err != nil {", "call moovhttp.Problem", "return ", "}", "call w.Header", "call w.Header().Set(\"Content-Type\", \"text/plain\")", "call w.WriteHeader(http.StatusOK)", "call contents.Bytes", "call w.Write", "}", "return <func>"]),
+  ("internal/files:getFileId", ["call mux.Vars", "if !ok || v == \"\" {", "call moovhttp.Problem", "return \"\"", "}", "return v"]),
+  ("internal/files:getFiles", ["func{", "call moovhttp.GetRequestID", "if requestID != \"\" {", "}", "call metrics.WrapResponseWriter", "call repo.GetFiles", "if err != nil {", "call moovhttp.Problem", "return ", "}", "call len", "call len", "call w.Header", "call w.Header().Set(\"X-Total-Count\", <call>)", "call w.Header", "call w.Header().Set(\"Content-Type\", \"application/json; charset=utf-8\")", "call w.WriteHeader(http.StatusOK)", "call json.NewEncoder", "call json.NewEncoder(w).Encode", "}", "return <func>"]),
+  ("internal/files:removeCashLetterFromFile", ["func{", "call moovhttp.GetRequestID", "if requestID != \"\" {", "}", "call metrics.WrapResponseWriter", "call getFileId", "if fileId == \"\" {", "return ", "}", "call getCashLetterId", "if cashLetterId == \"\" {", "return ", "}", "call updateMu.Lock", "defer updateMu.Unlock", "call repo.GetFile", "if err != nil {", "call moovhttp.Problem", "return ", "}", "if file == nil {", "call http.NotFound", "return ", "}", "call len", "call make", "range file.CashLetters {", "if file.CashLetters[i].ID != cashLetterId {", "call append", "}", "}", "call repo.SaveFile", "if err != nil {", "call moovhttp.Problem", "return ", "}", "call w.Header", "call w.Header().Set(\"Content-Type\", \"application/json; charset=utf-8\")", "call w.WriteHeader(http.StatusOK)", "call json.NewEncoder", "call json.NewEncoder(w).Encode", "}", "return <func>"]),
+  ("internal/files:updateFileHeader", ["func{", "call moovhttp.GetRequestID", "if requestID != \"\" {", "}", "call metrics.WrapResponseWriter", "call json.NewDecoder", "call json.NewDecoder(r.Body).Decode", "if err != nil {", "call moovhttp.Problem", "return ", "}", "call getFileId", "if fileId == \"\" {", "return ", "}", "call updateMu.Lock", "defer updateMu.Unlock", "call repo.GetFile", "if err != nil {", "call moovhttp.Problem", "return ", "}", "if file == nil {", "call http.NotFound", "return ", "}", "call repo.SaveFile", "if err != nil {", "call moovhttp.Problem", "return ", "}", "call w.Header", "call w.Header().Set(\"Content-Type\", \"application/json; charset=utf-8\")", "call w.WriteHeader(http.StatusCreated)", "call json.NewEncoder", "call json.NewEncoder(w).Encode", "}", "return <func>"]),
+  ("internal/files:validateFile", ["func{", "call moovhttp.GetRequestID", "if requestID != \"\" {", "}", "call metrics.WrapResponseWriter", "call getFileId", "if fileId == \"\" {", "return ", "}", "call repo.GetFile", "if err != nil {", "call moovhttp.Problem", "return ", "}", "if file == nil {", "call http.NotFound", "return ", "}", "call len", "call make", "range file.CashLetters {", "call len", "call make", "range cl.Bundles {", "if b != nil {", "}", "}", "}", "call file.Create", "if err != nil {", "call moovhttp.Problem", "return ", "}", "call w.Header", "call w.Header().Set(\"Content-Type\", \"application/json; charset=utf-8\")", "call w.WriteHeader(http.StatusOK)", "call json.NewEncoder", "call json.NewEncoder(w).Encode", "}", "return <func>"]),
+  ("internal/responder:NewResponder", ["return &Responder{\n\tlogger:\tlogger,\n\tw:\tw,\n\tr:\tr,\n}"]),
+  ("internal/responder:Responder.Error", ["if status >= 500 {", "call r.w.WriteHeader(status)", "return ", "}", "call r.w.Header", "call r.w.Header().Set(\"Content-Type\", \"application/json; charset=UTF-8\")", "call r.w.WriteHeader(status)", "call err.Error", "call json.NewEncoder", "call json.NewEncoder(r.w).Encode", "if err != nil {", "call r.logger.LogErrorf", "call r.w.WriteHeader(http.StatusInternalServerError)", "return ", "}"]),
+  ("internal/responder:Responder.File", ["call imagecashletter.WriteVariableLineLengthOption", "call r.r.Header.Get", "switch mimeType {", "case \"application/octet-stream\":", "call r.w.Header", "call r.w.Header().Set(\"Content-Type\", \"application/octet-stream\")", "call imagecashletter.WriteEbcdicEncodingOption", "call append", "case \"text/plain\":", "call r.w.Header", "call r.w.Header().Set(\"Content-Type\", \"text/plain\")", "case :", "call r.logger.LogErrorf", "call r.w.WriteHeader(http.StatusInternalServerError)", "return ", "}", "call r.optionalHeaders.apply", "call r.w.Header", "call r.w.Header().Set(\"Content-Disposition\", \"attachment; filename=\" + name)", "call r.w.WriteHeader(status)", "call imagecashletter.NewWriter", "call imagecashletter.NewWriter(r.w, opts...).Write", "if err != nil {", "call r.logger.LogErrorf", "call r.w.WriteHeader(http.StatusInternalServerError)", "return ", "}"]),
+  ("internal/responder:Responder.JSON", ["call r.optionalHeaders.apply", "call r.w.Header", "call r.w.Header().Set(\"Content-Type\", \"application/json; charset=UTF-8\")", "call r.w.WriteHeader(status)", "call json.NewEncoder", "call json.NewEncoder(r.w).Encode", "if err != nil {", "call r.logger.LogErrorf", "call r.w.WriteHeader(http.StatusInternalServerError)", "return ", "}"]),
+  ("internal/responder:Responder.WithLocation", ["return r"]),
+  ("internal/responder:optionalHeaders.apply", ["if h.location != \"\" {", "call w.Header", "call w.Header().Set(\"Location\", h.location)", "}"]),
+  ("internal/storage:NewInMemoryRepo", ["call make", "return &memoryICLFileRepository{\n\tfiles: make(map[string]*imagecashletter.File),\n}"]),
+  ("internal/storage:memoryICLFileRepository.DeleteFile", ["call r.mu.Lock", "defer r.mu.Unlock", "if fileId == \"\" {", "return <call>", "}", "call delete", "return nil"]),
+  ("internal/storage:memoryICLFileRepository.GetFile", ["call r.mu.Lock", "defer r.mu.Unlock", "range r.files {", "if r.files[i].ID == fileId {", "return &f, nil", "}", "}", "return nil, nil"]),
+  ("internal/storage:memoryICLFileRepository.GetFiles", ["call r.mu.Lock", "defer r.mu.Unlock", "range r.files {", "call append", "}", "return out, nil"]),
+  ("internal/storage:memoryICLFileRepository.SaveFile", ["call r.mu.Lock", "defer r.mu.Unlock", "if file.ID == \"\" {", "return <call>", "}", "return nil"])
+]
+
+/-- where the process environment or the FRB compatibility mode is consulted: (package directory:function, call) -/
+def envReads : List (String × String) := [
+  (".:CheckDetailAddendumA.fieldInclusion", "IsFRBCompatibilityModeEnabled()"),
+  (".:CheckDetailAddendumA.fieldInclusion", "IsFRBCompatibilityModeEnabled()"),
+  (".:CheckDetailAddendumC.fieldInclusion", "IsFRBCompatibilityModeEnabled()"),
+  (".:ImageViewDetail.Validate", "IsFRBCompatibilityModeEnabled()"),
+  (".:ImageViewDetail.fieldInclusion", "IsFRBCompatibilityModeEnabled()"),
+  (".:IsFRBCompatibilityModeEnabled", "os.Getenv(\"FRB_COMPATIBILITY_MODE\")"),
+  (".:ReturnDetailAddendumA.fieldInclusion", "IsFRBCompatibilityModeEnabled()"),
+  (".:handleIBM1047Compatibility", "IsFRBCompatibilityModeEnabled()"),
+  ("cmd/server:main", "os.Getenv(\"HTTPS_CERT_FILE\")"),
+  ("cmd/server:main", "os.Getenv(\"HTTPS_KEY_FILE\")"),
+  ("internal/files/v2:(package variable initialiser)", "os.LookupEnv(\"READER_BUFFER_SIZE\")"),
+  ("internal/files:determineBufferSize", "os.LookupEnv(env)")
 ]
 
 end Icl.Spec.State
